@@ -17,6 +17,23 @@ H = os.path.join(vlib.VERIF, "harness")
 ENV = dict(os.environ, ASAN_OPTIONS="detect_leaks=0")
 
 
+def own_build(ctx, flavour):
+    """private copy of the compiler binary: the shared build cache evicts builds when another check runs on a
+    different source tree (mutant runs), which must not pull the binary from under a running check"""
+    import shutil
+    last = None
+    for attempt in range(4):
+        try:
+            d = vlib.build(flavour)
+            dst = ctx.path("bin-" + flavour)
+            os.makedirs(dst, exist_ok=True)
+            shutil.copy2(os.path.join(d, "cproc-qbe"), os.path.join(dst, "cproc-qbe"))
+            return dst
+        except (OSError, vlib.MachineryError) as ex:
+            last = ex
+    raise vlib.MachineryError("cannot obtain a %s build: %s" % (flavour, last))
+
+
 def build_cmap(ctx):
     return vlib.cc_link([os.path.join(H, "cmap.c"), os.path.join(vlib.REPO, "map.c")], ctx.path("cmap"),
                         extra=["-fsanitize=address,undefined", "-fno-sanitize-recover=undefined", "-w"])
@@ -102,6 +119,28 @@ def _dump_text(c, n, s, real, Hf):
     return " ".join(parts)
 
 
+def _sem(line):
+    """dictionary-level projection of a cmap result line: results without slot indices (mapfree values as a bag),
+    len, and the set of (key, value) pairs stored - everything except WHERE things are kept and the capacity"""
+    res, _, dump = line.partition("|")
+    out = []
+    for t in res.split():
+        k, _, v = t.partition(":")
+        if k == "p":
+            out.append("p:" + v.split(",")[0])
+        elif k == "f":
+            out.append("f:" + ",".join(sorted(v.split(","))))
+        else:
+            out.append(t)
+    d = dump.split()
+    pairs = sorted((d[i], d[i + 1]) for i in range(2, len(d), 2) if d[i] != "-1")
+    return (tuple(out), d[1] if len(d) > 1 else None, tuple(pairs))
+
+
+class Drift(vlib.MachineryError):
+    """the real code satisfies the dictionary semantics but its layout/growth no longer matches the transcription"""
+
+
 def map_flow_a(ctx, exe, cfg, nkeys, capmax, workers=8, timeout=1500, per_state=2):
     """TLC explores cfg; each VCASE (state) = history + all successor ops; every (state, op) is replayed into
     map.c under `per_state` of the key realisations (rotating), in chunks."""
@@ -112,7 +151,8 @@ def map_flow_a(ctx, exe, cfg, nkeys, capmax, workers=8, timeout=1500, per_state=
     r = ctx.tlc_must_pass("Map", cfg, workers=workers, timeout=timeout, heap="4g")
     if len(r.vcases) != r.distinct:
         raise vlib.MachineryError("expected one VCASE per distinct state: %d vs %d" % (len(r.vcases), r.distinct))
-    nstates = nrep = bad = 0
+    nstates = nrep = bad = drift = 0
+    driftex = None
     sample = None
     CH = 4000
     for lo in range(0, len(r.vcases), CH):
@@ -133,15 +173,24 @@ def map_flow_a(ctx, exe, cfg, nkeys, capmax, workers=8, timeout=1500, per_state=
                     expect.append((preres + _res_text([su]) + _dump_text(su["c"], su["n"], su["s"], real, Hf), c, su, real.name))
         rc, out, err = run_cmap(exe, "\n".join(lines) + "\n")
         got = [g for g in out.splitlines() if not g.startswith("S ")]
+        if rc == 3 and "SEARCH-FAILED" in err:
+            raise vlib.MachineryError("cannot realise the abstract keys with the real hash function: " + err[-300:])
         if rc != 0 or len(got) != len(expect):
+            hang = "HANG" in out[-40:]
+            inp = lines[len(head) + len(got) - (2 if hang else 0)] if len(head) + len(got) < len(lines) + 2 and got else None
             with _LOCK:
-                ctx.violation("map:crash", "map.c harness died rc=%s (sanitizer report / hang?): %s" % (rc, err[-800:]),
-                              {"lines": len(lines), "got": len(got)})
+                ctx.violation("map:hang" if hang else "map:crash",
+                              "map.c %s while replaying a Map.tla history (rc=%s): %s" % ("does not terminate (probe loop finds no free slot)" if hang else "died", rc, err[-800:]),
+                              {"lines": len(lines), "completed": len(got), "around_input": inp})
             return
         with _LOCK:
             for (exp, c, su, rname), g, inp in zip(expect, got, lines[len(head):]):
                 ctx.count(inp, nontrivial=(su is not None and len(c["hist"]) >= 2))
                 if g.strip() != exp.strip():
+                    if _sem(g) == _sem(exp):
+                        drift += 1       # same dictionary, different slot/capacity: the transcription is out of date, not the property
+                        driftex = driftex or {"input": inp, "expected": exp, "observed": g}
+                        continue
                     bad += 1
                     if bad <= 5:
                         ctx.violation("map:%s:%s" % (su["o"] if su else "hist", rname.split("-")[0]),
@@ -156,7 +205,11 @@ def map_flow_a(ctx, exe, cfg, nkeys, capmax, workers=8, timeout=1500, per_state=
         ctx.validated(nstates)
         if sample:
             ctx.sample(sample)
-        ctx.cov["map_flow_a"] = {"cfg": cfg, "states": nstates, "replays": nrep, "mismatches": bad, "realisations": REALISATIONS}
+        ctx.cov["map_flow_a:" + cfg] = {"states": nstates, "replays": nrep, "mismatches": bad, "layout_only_mismatches": drift,
+                                        "realisations": REALISATIONS}
+    if drift and not bad:
+        raise Drift("MODEL-DRIFT: map.c returns the dictionary's results but no longer places keys / grows as Map.tla's "
+                                  "transcription does (%d replays); update Map.tla.  First: %s" % (drift, driftex))
 
 
 # ------------------------------------------------------------------------------------------------
@@ -184,13 +237,20 @@ def map_flow_b(ctx, exe, plans):
     for name, initcap, nkeys, nops, keydefs, growth, reset_p in plans:
         ops = _rand_history(ctx.rng, nops, nkeys, growth, reset_p)
         rc, out, err = run_cmap(exe, "\n".join(keydefs) + "\nL %s %d %s\n" % (trace, initcap, " ".join(ops)))
+        if rc == 3 and "SEARCH-FAILED" in err:
+            raise vlib.MachineryError("cannot engineer colliding keys with the real hash function: " + err[-300:])
         if rc != 0 or "L ok" not in out:
             with _LOCK:
-                ctx.violation("map:crash:history:" + name, "map.c harness died on a long history rc=%s: %s" % (rc, err[-800:]), {"plan": name})
+                ctx.violation(("map:hang:history:" if "HANG" in out[-40:] else "map:crash:history:") + name, "map.c harness died on a long history rc=%s: %s" % (rc, err[-800:]), {"plan": name})
             return
         names.append(name)
     nev = sum(1 for _ in open(trace))
     r = ctx.tlc("Trace_Map", "MC_Trace_Map.cfg", workers=1, env={"TRACE": trace}, timeout=2400, heap="4g")
+    if not r.ok:
+        r2 = ctx.tlc("Trace_Map", "MC_Trace_Map_lenient.cfg", workers=1, env={"TRACE": trace}, timeout=2400, heap="4g")
+        if r2.ok:
+            raise Drift("MODEL-DRIFT: recorded map.c histories satisfy the dictionary semantics and keep a free slot, "
+                                      "but the capacity does not follow MapDict!CapAfterPut (event %d); update the growth rule" % r.distinct)
     with _LOCK:
         ctx.count("hist:" + ",".join(names) + ":" + str(ctx.seed), nontrivial=True, n=nev)
         if not r.ok:
@@ -380,6 +440,7 @@ class ScopeRender:
         self.expect = {}       # chk name -> expected value
         self.gotoexp = {}      # goto marker -> expected label marker
         self.nuses = 0
+        self.callids = {}      # id passed to usei/usel -> chk name
 
     def U(self, eid, c):
         return 11 + c * self.stride + eid
@@ -392,7 +453,7 @@ class ScopeRender:
                 "struct": "sizeof(struct %s)", "union": "sizeof(union %s)"}[k] % n
 
     def render(self):
-        out = ["void mark(int);"]
+        out = ["void mark(int); void usei(int, int); void usel(int, unsigned long);"]
         stack = ["file"]
         plist = None
         pending_goto = []      # (marker, name, copy) of the current function
@@ -440,7 +501,7 @@ class ScopeRender:
                     elif k in ("struct", "union"):
                         t = "%s %s { char m[%d]; }" % (k, n, u)
                         if top == "proto":
-                            plist.append("%s *chkq_%d_%d" % (t, K, c))
+                            plist.append("%s *" % t)      # unnamed: the prototype scope may hold tags and no ordinary identifier
                         else:
                             out.append(t + ";")
                     elif k == "param":
@@ -476,7 +537,13 @@ class ScopeRender:
                         continue
                     name = "chk_%d_%d" % (K, c)
                     self.expect[name] = u
-                    out.append("%sint %s = %s;" % ("" if top == "file" else "static ", name, e))
+                    if top != "file" and (K + c) % 2 == 1:
+                        # observed as a call argument: puts no identifier into the scope the lookup starts from
+                        cid = len(self.callids) + 1
+                        self.callids[cid] = name
+                        out.append("%s(%d, %s);" % ("usei" if it["kind"] in ("enum", "macro", "fmacro") else "usel", cid, e))
+                    else:
+                        out.append("%sint %s = %s;" % ("" if top == "file" else "static ", name, e))
                     if self.audit:
                         out.append('_Static_assert((%s) == %d, "%s");' % (e, u, name))
                     n = self.nm(it["name"], c)
@@ -514,10 +581,17 @@ class ScopeRender:
         return "\n".join(out) + "\n"
 
 
-def scope_observe(out):
+def scope_observe(out, callids=None):
     """IL -> ({chk name: value}, {goto marker: label marker or None})"""
     mod = ilparse.parse(out)
     vals = {}
+    for f in mod["funcs"]:
+        for b in f["blocks"]:
+            for ins in b["insts"]:
+                if ins["op"] == "call" and ins.get("callee", {}).get("n") in ("usei", "usel") and len(ins["cargs"]) == 2:
+                    a, v = ins["cargs"][0]["val"], ins["cargs"][1]["val"]
+                    if a["t"] == "int" and v["t"] == "int" and callids and a["v"] in callids:
+                        vals[callids[a["v"]]] = v["v"]
     for d in mod["data"]:
         nm = d["name"]
         if nm.startswith(".Lchk_"):
@@ -544,7 +618,7 @@ def scope_judge(rend, rc, out, err):
     if rc != 0:
         return [("scope:compile", "valid scoping program rejected / crashed rc=%s: %s" % (rc, err[-300:]), {})]
     try:
-        vals, jumps = scope_observe(out)
+        vals, jumps = scope_observe(out, rend.callids)
     except ilparse.ILSyntaxError as ex:
         raise vlib.MachineryError("IL of a scope unit does not parse: %s" % ex)
     bad = []
@@ -564,13 +638,24 @@ def scope_judge(rend, rc, out, err):
 _NAMECACHE = {}
 
 
-def collide_names(exe, count, mask, target, stem):
-    """identifiers whose REAL hash (map.c, through cmap) agrees in the low bits: one probe chain in every scope table"""
-    key = (count, mask, target, stem)
+def collide_names(exe, count, mask, target, stem, shape="tail"):
+    """identifiers whose REAL hash (map.c, through cmap) agrees in the low bits: one probe chain in every scope table.
+    shape: "tail"   <stem><i>_<searched>                      (differ early)
+           "prefix" <stem>_a_long_common_prefix_of_names_<i>_<searched>   (differ only after 30+ characters)
+           "suffix" v<searched>_<i>_<stem>_a_long_common_suffix           (differ only in the first characters)"""
+    key = (count, mask, target, stem, shape)
     if key not in _NAMECACHE:
-        rc, out, err = run_cmap(exe, "".join("S %d %s %x %x\n" % (i, ("%s%d_" % (stem, i)).encode().hex(), mask, target) for i in range(count)))
+        lines = []
+        for i in range(count):
+            if shape == "tail":
+                lines.append("S %d %s %x %x" % (i, ("%s%d_" % (stem, i)).encode().hex(), mask, target))
+            elif shape == "prefix":
+                lines.append("S %d %s %x %x" % (i, ("%s_a_long_common_prefix_of_names_%d_" % (stem, i)).encode().hex(), mask, target))
+            else:
+                lines.append("P %d %s %x %x" % (i, ("_%d_%s_a_long_common_suffix" % (i, stem)).encode().hex(), mask, target))
+        rc, out, err = run_cmap(exe, "\n".join(lines) + "\n")
         names = [bytes.fromhex(l.split()[2]).decode() for l in out.splitlines() if l.startswith("S ")]
-        if rc != 0 or len(names) != count:
+        if rc != 0 or len(names) != count or len(set(names)) != count or any(n in KEYWORDS for n in names):
             raise vlib.MachineryError("name search failed: %s" % err[-300:])
         _NAMECACHE[key] = names
     return _NAMECACHE[key]
@@ -590,7 +675,7 @@ def scope_programs(ctx, objdir, exe, cases, label, copies=1, use_copies=None, na
     def mk(ic):
         i, c = ic
         if names is None:
-            pool = collide_names(exe, 64, 0x3ff, (37 * i) & 0x3ff if i % 2 else 0x3ff, "n")
+            pool = collide_names(exe, 16, 0x3ff, (0x3ff, 0x155, 0x020)[i % 3], "n", ("tail", "prefix", "suffix")[i % 3])
         else:
             pool = names
         nn = max([it["name"] for it in c["prog"] if "name" in it] + [1])
@@ -606,18 +691,25 @@ def scope_programs(ctx, objdir, exe, cases, label, copies=1, use_copies=None, na
             gcc_audit(ctx, ScopeRender(c, namefn, copies, use_copies, audit=True).render(), "%s_%d" % (label, i))
         rc, out, err = vlib.cproc(objdir, src, timeout=300)
         return rend, src, scope_judge(rend, rc, out, err)
+    if names is None:
+        for j in range(3):       # fill the cache before the workers start
+            collide_names(exe, 16, 0x3ff, (0x3ff, 0x155, 0x020)[j], "n", ("tail", "prefix", "suffix")[j])
     res = vlib.pmap(mk, list(enumerate(cases)), workers=workers)
-    nuse = 0
+    nuse = nbad = 0
     for rend, src, bad in res:
         nuse += rend.nuses
         with _LOCK:
             ctx.count("scope:" + vlib.sha(src), nontrivial=rend.nuses > 0, n=max(1, rend.nuses))
-            for key, what, det in bad[:3]:
+            for key, what, det in bad[:2]:
+                nbad += 1
+                if nbad > 4:         # a few per class: keep room in the report for the other parts of the check
+                    break
                 det["program"] = src if len(src) < 20000 else src[:20000] + "..."
                 ctx.violation(key, what, det)
     with _LOCK:
         ctx.validated(len(cases))
-        ctx.cov.setdefault("scope", {})[label] = {"programs": len(cases), "uses_checked": nuse, "copies": copies}
+        ctx.cov.setdefault("scope", {})[label] = {"programs": len(cases), "uses_checked": nuse, "copies": copies,
+                                                  "programs_failing": sum(1 for r in res if r[2])}
     return res
 
 
@@ -730,8 +822,10 @@ def scope_check(ctx, objdir, hooks, exe):
     r = ctx.tlc_must_pass("CScope", "MC_CScope_pat.cfg", workers=2, simulate=2 if q else 8, depth=120, timeout=600)
     pat = [json.loads(v) for v in r.vcases]
     pat.sort(key=lambda c: -sum(1 for it in c["prog"] if it["op"] in ("use", "goto")))
-    names = collide_names(exe, 50000, 0xff, 0x5a, "q")
-    scope_programs(ctx, objdir, exe, pat[:2 if q else 8], "big50k", copies=12500, use_copies=range(0, 12500, 50 if q else 5), names=names, workers=4)
+    for j, c in enumerate(pat[:2 if q else 6]):
+        shape = ("tail", "prefix", "suffix")[j % 3]
+        scope_programs(ctx, objdir, exe, [c], "big50k-%d-%s" % (j, shape), copies=12500, use_copies=range(0, 12500, 50 if q else 5),
+                       names=collide_names(exe, 50000, 0xff, 0x5a, "q", shape), workers=2)
     # flow B
     import glob
     units = [("test:" + os.path.basename(f), f, None) for f in sorted(glob.glob(os.path.join(vlib.REPO, "test", "*.c")))]
@@ -753,6 +847,18 @@ def _spawn(fn, errs, *a, **kw):
     return t
 
 
+def _raise(ctx, errs):
+    """machinery errors first; a layout drift is reported only when nothing violates the property itself"""
+    hard = [e for e in errs if not isinstance(e, Drift)]
+    if hard:
+        raise hard[0]
+    if errs and not ctx.violations:
+        raise errs[0]
+    for e in errs:
+        print("note: %s" % str(e)[:300], flush=True)
+    del errs[:]
+
+
 def run(ctx):
     ctx.cov["rule"] = (
         "Map: TLC enumerates every reachable table of Map.tla for every monotone hash function into the bucket set (4 keys, "
@@ -763,8 +869,8 @@ def run(ctx):
         "some model predicts sharing.  Scope: CScope.tla programs (exhaustive short, random, 200-deep, 50 000-identifier scaled "
         "copies), counted per checked use; H8 traces counted per event.")
     exe = build_cmap(ctx)
-    objdir = vlib.build("plain")
-    hooks = vlib.build("hooks")
+    objdir = own_build(ctx, "plain")
+    hooks = own_build(ctx, "hooks")
     errs = []
     q = ctx.quick
     ths = [
@@ -775,8 +881,7 @@ def run(ctx):
     ]
     for t in ths:
         t.join()
-    if errs:
-        raise errs[0]
+    _raise(ctx, errs)
     # the capacity-2 hazard must be *found* by TLC (keeps Inv_FreeSlot honest: it is not a tautology)
     r = ctx.tlc("Map", "MC_Map_cap2.cfg", workers=2, timeout=300)
     if r.ok:
@@ -788,10 +893,49 @@ def run(ctx):
         ]
         for t in ths:
             t.join()
-        if errs:
-            raise errs[0]
+        _raise(ctx, errs)
         # vacuity: every action of the models taken
         for spec, cfg, kw in (("Map", "MC_Map_quick.cfg", {}), ("Scope", "MC_Scope_quick.cfg", {}),
                               ("CScope", "MC_CScope_bfs_quick.cfg", {})):
             r = ctx.tlc_must_pass(spec, cfg, workers=6, coverage=True, timeout=1200, collect="VCASE ", on_line=lambda x: None, **kw)
             ctx.check_coverage(r)
+
+
+def replay(ctx, path):
+    """./check C16 --replay <file>: re-run one stored case against the current tree; prints expected and observed."""
+    rec = json.load(open(path))
+    key, case = rec["key"], rec["case"]
+    print("replay %s :: %s" % (key, rec["what"]))
+    if key.startswith("map:") and "input" in case and "realisation" in case:
+        exe = build_cmap(ctx)
+        real = Realisation(case["realisation"], 1000 * (REALISATIONS.index(case["realisation"]) + 1), 4, 8)
+        rc, out, err = run_cmap(exe, "\n".join(real.defs() + [case["input"]]) + "\n")
+        got = [g for g in out.splitlines() if not g.startswith("S ")]
+        print("input   :", case["input"])
+        print("expected:", case["expected"])
+        print("observed:", got[-1] if got else "(none) rc=%s %s" % (rc, err[-300:]))
+        return 0 if got and got[-1].strip() == case["expected"].strip() else 1
+    if key.startswith("pool:") and "unit" in case:
+        rc, out, err = vlib.cproc(own_build(ctx, "plain"), case["unit"])
+        print(case["unit"]); print(out or err)
+        print("required: literal %s must read bytes %s at its address" % (case.get("literal"), case.get("required_bytes")))
+        data = ilparse.data_by_name(ilparse.parse(out)) if rc == 0 else {}
+        obj = data.get(case.get("object"))
+        img = ilparse.data_image(obj)[0] if obj else None
+        ok = img is not None and img[:len(case.get("required_bytes", []))] == case.get("required_bytes")
+        print("observed object bytes:", img)
+        return 0 if ok and rc == 0 else 1
+    if key.startswith("scope:") and "program" in case:
+        rc, out, err = vlib.cproc(own_build(ctx, "plain"), case["program"], timeout=300)
+        print(case["program"][:4000])
+        print("item:", case.get("item"), "expected value:", case.get("expected_value"), "previously observed:", case.get("observed_value"))
+        print("compiler rc=%s %s" % (rc, err[-400:]))
+        if rc != 0:
+            return 1
+        it = case.get("item")
+        if it is None:
+            return 0
+        print("IL lines mentioning the expected value:", [l for l in out.splitlines() if (" %d" % case["expected_value"]) in l][:5])
+        return 0 if any((" %d" % case["expected_value"]) in l for l in out.splitlines()) else 1
+    print(json.dumps(case, indent=1)[:4000])
+    return 2
